@@ -30,6 +30,11 @@ class DcA(ArrowSerializableDataclass):
 
 
 @dataclass(frozen=True)
+class H0(ArrowSerializableDataclass):
+    """A header that carries no fields (its presence is the signal)."""
+
+
+@dataclass(frozen=True)
 class H1(ArrowSerializableDataclass):
     title: str
     n: int
@@ -195,6 +200,8 @@ def _header_name(schema) -> str:
     if schema is None:
         return "none"
     f = _fields(schema)
+    if not f:
+        return "h0"
     if [x["n"] for x in f] == ["title", "n"] and f[0] == {"n": "title", "arrow": "utf8", "nul": False} and f[1]["arrow"] == "int64":
         return "h2" if f[1]["nul"] else "h1"
     return f"other:{schema}"
